@@ -366,7 +366,7 @@ def fit_clause(ck, mod, tier, parsed, TO, found):
                 A_ = Algebra(); P1 = A_.residual(A_.rf(Bu(k)), A_.rf(jump)); P2 = A_.residual(A_.rf(Bu(k)), A_.rf(-jump))
                 q.append(([], [z3.And(A_.poly_z3(P1) != 0, A_.poly_z3(P2) != 0)]))
             st_, mdl = smt.agg_core(ck, '%s: the constraint rows say %s and S\'(x_k - 0) = S\'(x_k + 0) at every interior knot' % (label, {0: "f\'\' = 0 at both ends", 1: "f and f\'\' agree at the two ends", 2: "S\' = 0 at both ends"}[bc]), q, TO, probe=[fr != u[n]])
-            if st_ == 'sat': found.append(('fit-constraints', label + ': the smoothness constraint matrix is not natural ends + C1', mdl))
+            if st_ == 'sat': found.append(('fit-constraints-bc%d' % bc, label + ': the constraint matrix does not say what the boundary kind and C1 smoothness require', mdl))
     ck.assumptions.append('CubicSpline::Fit: linalg_constrained_qrsolve (Eigen) by contract (returns the constrained least-squares optimum); natural, zero-slope and periodic boundary rows; with F1-F3 the optimum is the least-squares natural cubic spline on the grid, which reproduces data that already lie in the spline space whenever that optimum is unique')
     ck.bounds['fit'] = '%d data points with symbolic abscissae anywhere in the grid (all interval combinations), grids of 3-4 (thorough 5) knots' % ND
 
@@ -537,6 +537,14 @@ def native_replay(tag, mdl):
         g = GRIDS[4][1]; y = [num((mdl or {}).get('y%d' % i)) for i in range(4)]; y[3] = y[0]; kind = 'a'
     elif tag == 'cubic-periodic':
         g = GRIDS[5][0]; y = [0.0, 1.0, 0.5, -1.0, 0.0]; kind = 'c'
+    elif tag.startswith('fit-constraints-bc'):
+        # native: the rows of the real AddBCToFitMatrix applied to a state (f, f'') against the end conditions / derivative jumps
+        # obtained from the real Calculate/CalculateDerivative on that state
+        bc = int(tag[-1]); src2 = os.path.join(common.workdir(), 'c12bc.cc')
+        open(src2, 'w').write('#include "%s"\n#include <cstdio>\n#include <cmath>\nint main(){ const long n=4; double g[4]={0,0.5,2,3}, f[4]={0.3,-1.1,0.7,2.2}, f2[4]={1.5,-0.4,0.9,-2.0}; CubicSpline s; s.setBC(%s); s.r_=vec(g,n); Eigen::MatrixXd M=Eigen::MatrixXd::Zero(n,2*n); s.AddBCToFitMatrix(M,0,0); Eigen::VectorXd u(2*n); for(long i=0;i<n;i++){u(i)=f[i];u(n+i)=f2[i];} Eigen::VectorXd r=M*u; double o[2],d=1e-7,worst=0; auto der=[&](double x){ h_cubic_state(g,f,f2,n,x,o); return o[1]; }; double e0,e1; int bc=%d; if(bc==0){e0=f2[0];e1=f2[n-1];} else if(bc==2){e0=der(g[0]+d);e1=der(g[n-1]-d);} else {e0=f[0]-f[n-1];e1=f2[0]-f2[n-1];} worst=fmax(worst,fmin(fabs(r(0)-e0),fabs(r(0)+e0))); worst=fmax(worst,fmin(fabs(r(n-1)-e1),fabs(r(n-1)+e1))); for(long k=1;k<n-1;k++){ double j=der(g[k]-d)-der(g[k]+d); worst=fmax(worst,fmin(fabs(r(k)-j),fabs(r(k)+j))); } printf("%%.6g\\n",worst); return 0; }\n' % (common.harness_path(HARNESS), {0: 'Spline::splineNormal', 1: 'Spline::splinePeriodic', 2: 'Spline::splineDerivativeZero'}[bc], bc))
+        b2 = common.native_build([src2], 'C12_bc', extra=['-I' + common.REPO])
+        rc, so, se = common.run_native(b2); w = float(so.split()[0]) if so.split() else 1e9
+        return w > 1e-4, 'native AddBCToFitMatrix (boundary kind %d, grid 0,0.5,2,3) applied to a state (f,f\'\'): largest deviation of a constraint row from the end condition / derivative jump computed by the real CalculateDerivative = %.3g' % (bc, w)
     elif tag.startswith('fit-'):
         # native: sample a natural cubic spline (built by the real Interpolate) on 12 points and fit it on the same grid with the real
         # Fit and the real constrained solver: a correct assembly returns the generating ordinates
